@@ -12,6 +12,8 @@ pub mod hashsim;
 pub mod lsp_corpus;
 pub mod lspsim;
 pub mod passwatch;
+#[cfg(mos_verif_threads)]
+pub mod threadsim;
 
 use common::{Cli, EXIT_HARNESS};
 
@@ -30,6 +32,8 @@ pub fn main(args: &[String]) -> i32 {
         "C10" | "hashsim" => hashsim::main(&cli),
         "C14" | "lspsim" => lspsim::main(&cli),
         "C06" | "envsim" => envsim::main(&cli),
+        #[cfg(mos_verif_threads)]
+        "C19" | "C20" => threadsim::main(&cli),
         other => {
             eprintln!("simctl: unknown target {}", other);
             EXIT_HARNESS
